@@ -44,6 +44,13 @@ var families = []family{
 	{"nul_run", func(n int) string { return "a:" + strings.Repeat("\x00", n) }},
 	{"minus_run", func(n int) string { return strings.Repeat("-", n) + "1" }},
 	{"to_run", func(n int) string { return strings.Repeat("TO ", n) }},
+	{"range_term_nest", func(n int) string { return "a" + strings.Repeat(":[1 TO 2]", n) }},
+	{"compare_term_nest", func(n int) string { return "a" + strings.Repeat(":>1", n) }},
+	{"list_term_nest", func(n int) string { return "a" + strings.Repeat(":(x OR y)", n) }},
+	{"range_in_range", func(n int) string { return strings.Repeat("a:[", n) + "1" + strings.Repeat(" TO 2]", n) }},
+	{"boost_fuzzy_run", func(n int) string { return "a" + strings.Repeat("~2^3", n/2+1) }},
+	{"empty_phrases", func(n int) string { return strings.TrimSpace(strings.Repeat("\"\" ", n)) }},
+	{"escaped_run", func(n int) string { return "a:" + strings.Repeat("\\*\\?", n) }},
 }
 
 // cmdParseFamilies: every family at every requested size; same output format as parse-texts, plus family and n.
